@@ -69,7 +69,22 @@ func c15(p *model.Prog, r *report.Result) {
 	for _, sp := range specs {
 		okSize, okTO := false, false
 		detail := ""
-		for _, fn := range model.WithAnons(sp.ctor) {
+		optFns := model.WithAnons(sp.ctor)
+		// a named function of the package handed on as the option callback counts like a closure
+		model.EachInstr(sp.ctor, func(in ssa.Instruction) {
+			for _, op := range in.Operands(nil) {
+				if *op == nil {
+					continue
+				}
+				if f, isF := (*op).(*ssa.Function); isF && f.Pkg == sp.ctor.Pkg && len(f.Blocks) > 0 {
+					if ci, isCall := in.(ssa.CallInstruction); isCall && ci.Common().Value == *op {
+						continue // called, not handed on
+					}
+					optFns = append(optFns, f)
+				}
+			}
+		})
+		for _, fn := range optFns {
 			for _, st := range model.FieldStores(fn, wcs) {
 				if k, isK := model.ConstInt(st.Val); isK && k > 0 {
 					okSize = true
